@@ -46,7 +46,11 @@ RULE_ADDED = (
               'd or not, that leaves the device in the signer. '
               ' '
               'Round 15: merkle proofs with a node repeated (12%); the 16 MiB transaction of a '
-              'quick run always takes place. ')
+              'quick run always takes place. '
+              ' '
+              'Round 18: one dialogue per run in which the device asks for a large transaction '
+              'one byte at a time - 2^17 exchanges in one part (quick), more than 2^20 '
+              '(thorough); nothing bounds the number of exchanges of a part. ')
 RULE = RULE + " " + RULE_ADDED.strip()
 ASSUMPTIONS = [
     "device model and fake HID transport are trusted (pv/simdev); they follow the framing only",
@@ -56,18 +60,24 @@ ASSUMPTIONS = [
 ]
 FLOORS = {"quick": {"evaluations": 500, "stream_comparisons": 1200, "success_replies": 200,
                     "hostile_cases": 100, "v1_cases": 40, "distinct": 100,
-                    "chunk_contract_evaluations": 1000, "transactions_of_16_MiB_or_more": 1},
+                    "chunk_contract_evaluations": 1000, "transactions_of_16_MiB_or_more": 1,
+                    "parts_relayed_in_2^17_exchanges_or_more": 1},
           "thorough": {"evaluations": 30000, "stream_comparisons": 60000,
                        "success_replies": 10000, "hostile_cases": 5000, "v1_cases": 2000,
-                       "distinct": 2000}}
+                       "distinct": 2000, "transactions_of_16_MiB_or_more": 1,
+                       "parts_relayed_in_more_than_2^20_exchanges": 1}}
 
 
 def shards(tier, seed):
     if tier == "quick":
         return [{"seed": seed * 1000 + i, "n": 120, "max_in": 4, "max_out": 4,
-                 "sized_16m": i == 3} for i in range(16)]
+                 "sized_16m": i == 3, "byte_at_a_time": 2 ** 17 if i == 5 else 0}
+                for i in range(16)]
+    # (one dialogue of more than 2^20 exchanges: a transaction of a mebibyte asked for one
+    # byte at a time - about 75 s and 650 MB of event records, hence one shard only)
     return [{"seed": seed * 1000 + i, "n": 1300, "max_in": 20, "max_out": 20, "big": True,
-             "sized_16m": i % 4 == 3} for i in range(32)]
+             "sized_16m": i % 4 == 3, "byte_at_a_time": 2 ** 20 if i == 5 else 0}
+            for i in range(32)]
 
 
 def gen_policy(rng):
@@ -87,7 +97,17 @@ def gen_case(rng, spec, i):
     c["v1"] = v1
     c["form"] = form
     c["seed"] = rng.getrandbits(48)
-    c["spec"] = {k: spec[k] for k in ("max_in", "max_out", "big", "sized_16m") if k in spec}
+    c["spec"] = {k: spec[k] for k in ("max_in", "max_out", "big", "sized_16m",
+                                      "byte_at_a_time") if k in spec}
+    if spec.get("byte_at_a_time") and i == 11:
+        # a device that asks for a large transaction one byte at a time: as many exchanges
+        # in one part as the part has bytes (nothing bounds their number)
+        v1 = c["v1"] = False
+        form = c["form"] = "legacy"
+        c["sized_tx"] = spec["byte_at_a_time"] + 4096 + rng.randrange(100)
+        c["byte_at_a_time"] = True
+        c["platform"] = rng.choice(["tcp", "sgx"])
+        return c
     if spec.get("sized_16m") and i == 7 and form == "hash" and not v1:
         form = c["form"] = "legacy"     # (the one 16 MiB case of the shard always takes place)
     if form != "hash" and i % 40 == 7:
@@ -204,13 +224,18 @@ def build(c, spec, prev=None):
         else:
             out["sign_policy"]["late"] = {part: rng.choice([1, 2, 3, 4, 5, 8, 20])}
             out["hostile"] = "late:" + part
-    if c.get("sized_tx", 0) > 2 ** 20:
+    if c.get("byte_at_a_time"):
+        out["chunk"] = ChunkPolicy("const", 1, random.Random(rng.getrandbits(32)))
+        out["sign_policy"] = {k: v for k, v in out["sign_policy"].items() if k == "any_path"}
+        out["hostile"] = None
+    elif c.get("sized_tx", 0) > 2 ** 20:
         # (megabytes in one-byte pieces would take hours: the largest requests only)
         out["chunk"] = ChunkPolicy("const", rng.choice([255, 255, 240, 200]),
                                    random.Random(rng.getrandbits(32)))
         out["sign_policy"].pop("early_tail", None)
     out["exchange_fault"] = None
-    if form != "hash" and out["hostile"] is None and rng.random() < 0.06:
+    if form != "hash" and out["hostile"] is None and rng.random() < 0.06 and \
+            not c.get("byte_at_a_time"):
         # one exchange of the dialogue fails (error status in the device's range, or no
         # answer within the time-out): the request must not be reported as signed, and the
         # next request on this manager must be relayed as if nothing had happened before
@@ -366,6 +391,10 @@ def monitor(acc, c, b, dev, nrec_before, mark, bus, reply, exc):
                        missing=[p for p in ("tx", "receipt", "proof") if p not in st],
                        late=b["sign_policy"].get("late"), reply=reply)
         chunks = sum(len(s.chunks) for s in st.values())
+        if max(len(s.chunks) for s in st.values()) >= 2 ** 17:
+            acc.count("parts_relayed_in_2^17_exchanges_or_more")
+        if max(len(s.chunks) for s in st.values()) > 2 ** 20:
+            acc.count("parts_relayed_in_more_than_2^20_exchanges")
         if chunks >= 4 and len(st) >= 2:
             acc.count("nontrivial_auth")
     elif "hash" not in b:
